@@ -126,6 +126,7 @@ def geometries(ds):
     w, h = (x1 - x0), (y1 - y0)
     polys = [p for p in ds.ems.polygons if p is not None]
     first = polys[0]
+    inner = polys[len(polys) // 2]
     px, py = first.exterior.coords[0]
     return {
         'box centre': shapely.box(cx - w / 6, cy - h / 6, cx + w / 6, cy + h / 6),
@@ -134,6 +135,9 @@ def geometries(ds):
         'edge hugging': shapely.box(x0 - 1, y0 - 1, x0 + w / 8, y1 + 1),
         'line': shapely.LineString([(x0, y0), (cx, cy + h / 5), (x1, cy)]),
         'point': shapely.Point(first.representative_point()),
+        # a point exactly on a corner / on a side that several cells share: touching counts, every one of them is marked
+        'point on a shared corner': shapely.Point(inner.exterior.coords[2]),
+        'point on a shared side': shapely.Point((inner.exterior.coords[1][0] + inner.exterior.coords[2][0]) / 2, (inner.exterior.coords[1][1] + inner.exterior.coords[2][1]) / 2),
         'multi': shapely.MultiPolygon([shapely.box(x0, y0, x0 + w / 5, y0 + h / 5), shapely.box(x1 - w / 5, y1 - h / 5, x1, y1)]),
         'outside': shapely.box(x1 + 5, y1 + 5, x1 + 6, y1 + 6),
         # several parts inside / touching the same cells (a cell hit by two parts must still be selected once)
